@@ -1,10 +1,14 @@
 import Driver.Proto
 import Driver.C16
 import Driver.C16Mon
+import Driver.C20
+import Driver.C20Mon
 
 def suites : List (String × Driver.Suite) :=
   Driver.C16.suites ++
-  Driver.C16Mon.suites
+  Driver.C16Mon.suites ++
+  Driver.C20.suites ++
+  Driver.C20Mon.suites
 
 def main (args : List String) : IO UInt32 := do
   match args with
